@@ -13,8 +13,8 @@ from architecture_simulator.isa.riscv.rv32i_instructions import instruction_map
 from architecture_simulator.isa.riscv import instruction_types as T
 
 
-def load(text):
-    sim = RiscvSimulation()
+def load(text, **kw):
+    sim = RiscvSimulation(**kw)
     sim.load_program(text)
     return sim
 
@@ -24,7 +24,19 @@ def imem(sim):
 
 
 def data_bytes(sim):
-    return {a: int(v) for a, v in sim.state.memory.memory_file.items()}
+    m = sim.state.memory
+    if hasattr(m, "cache"):
+        # logical contents of a cached data memory: backing store overlaid with the resident blocks
+        out = {a: int(v) for a, v in m.memory.memory_file.items()}
+        for cs in m.cache.sets:
+            for b in cs.blocks:
+                if b.valid_bit:
+                    base = b.decoded_address.block_alinged_address
+                    for i, wv in enumerate(b.values):
+                        for k in range(4):
+                            out[base + 4 * i + k] = (int(wv) >> (8 * k)) & 255
+        return out
+    return {a: int(v) for a, v in m.memory_file.items()}
 
 
 def shape_key(prog):
@@ -237,7 +249,20 @@ def run_c05(tier, seed):
         seen.add((tuple(x.kind for x in data), d.kind, idx is None, prog.data_first))
         x = [0] * 32
         try:
-            s = load(text)
+            # every third case runs in a simulation with a data cache (either policy, small geometries, both modes): what
+            # the data segment holds and what name[i] yields does not depend on how the memory is configured
+            kw = {}
+            if evals % 3 == 0:
+                from architecture_simulator.uarch.memory.cache import CacheOptions
+                kw = {"data_cache": CacheOptions(True, rnd.randint(0, 2), rnd.randint(0, 2), rnd.choice([1, 2]), rnd.choice(["wb", "wt"]), rnd.choice(["lru", "plru"]), 0),
+                      "mode": rnd.choice(["single_stage_pipeline", "five_stage_pipeline"])}
+            if kw:
+                # (a cached memory rejects accesses that cross a word boundary -- C03; such cases stay uncached)
+                base0, size0 = table[d.name]
+                ea0 = base0 + size0 * (idx or 0)
+                if ea0 % 4 + {"b": 1, "h": 2, "w": 4}[mn[1]] > 4 or ea0 % 4 + {"sb": 1, "sh": 2, "sw": 4}[smn] > 4:
+                    kw = {}
+            s = load(text, **kw)
             bad = None
             if data_bytes(s) != {a: b for a, b in mem.items()} and {a: b for a, b in data_bytes(s).items() if b} != {a: b for a, b in mem.items() if b}:
                 bad = "data memory differs from the documented layout"
@@ -267,8 +292,19 @@ def run_c05(tier, seed):
                         break
         except Exception as e:
             bad = "%s: %s" % (type(e).__name__, str(e)[:100] or repr(e)[:100])
+        if bad and kw:
+            c_ = kw["data_cache"]
+            bad += "   [with a data cache: %d index bits, %d block bits, %d ways, %s, %s; %s]" % (c_.num_index_bits, c_.num_block_bits, c_.associativity, c_.cache_type, c_.replacement_strategy, kw["mode"])
         if bad and len(viol) < 5:
-            viol.append({"key": "C05:" + bad[:70], "what": bad, "text": text})
+            base, size = table[d.name]
+            ea = base + size * (idx or 0)
+            n = {"b": 1, "h": 2, "w": 4}[mn[1]]
+            raw = sum(mem.get(ea + i, 0) << (8 * i) for i in range(n))
+            sn = {"sb": 1, "sh": 2, "sw": 4}[smn]
+            viol.append({"key": "C05:" + bad[:70], "what": bad, "text": text, "sub": "case",
+                         "cache": [c_.num_index_bits, c_.num_block_bits, c_.associativity, c_.cache_type, c_.replacement_strategy] if kw else None, "mode": kw.get("mode"),
+                         "expected_data": {str(a): b for a, b in mem.items()},
+                         "expected_registers": {"5": ea, "6": raw if mn in ("lbu", "lhu", "lw") else asm.sext(raw, 8 * n) % 2 ** 32, "7": c % 2 ** 32, "8": (c % 2 ** 32) % 2 ** (8 * sn)}})
         elif not bad and len(samples) < 2:
             samples.append({"text": text, "x5_x6_x7": [hex(x[5]), hex(x[6]), hex(x[7])]})
 
@@ -522,8 +558,29 @@ def run_c15(tier, seed):
 
 
 def replay(j):
+    """True = the contract holds now"""
     text = j.get("text", "")
     key = j.get("key", "")
+    if j.get("sub") == "case":
+        kw = {}
+        if j.get("cache"):
+            from architecture_simulator.uarch.memory.cache import CacheOptions
+            c = j["cache"]
+            kw = {"data_cache": CacheOptions(True, c[0], c[1], c[2], c[3], c[4], 0), "mode": j["mode"]}
+        try:
+            s = load(text, **kw)
+            got = {str(a): b for a, b in data_bytes(s).items() if b}
+            ok = got == {a: b for a, b in j["expected_data"].items() if b}
+            s.run()
+            x = [int(r) for r in s.state.register_file.registers]
+            for r, v in j["expected_registers"].items():
+                ok = ok and x[int(r)] == v
+            print("registers x5..x8:", [hex(v) for v in x[5:9]], "expected", j["expected_registers"])
+        except Exception as e:
+            print("raises", type(e).__name__, str(e)[:200])
+            ok = False
+        print("recorded:", j.get("what"))
+        return ok
     if key.startswith("C15"):
         fn = (lambda t: ToySimulation().load_program(t)) if j.get("assembler") == "toy" else (lambda t: RiscvSimulation().load_program(t))
         bad, kind = well_typed_outcome(fn, text)
